@@ -51,7 +51,10 @@ def run(chk):
     n_paths = len(cases)
     # other failures are propagated
     for src in ["has(1 / 0)", "has(i1 / i0)", "has([1][5])", "has(-'a')", "has(1 + 'a')", "has(int('x'))",
-                "has(m1['a']['b'])", "has(x, y)", "has()", "has(1 < 'a')"]:
+                "has(m1['a']['b'])", "has(x, y)", "has()", "has(1 < 'a')", "has((1 / 0).b)", "has((i1 / i0).b.c)",
+                "has(nosuch(1))", "has(x(1))", "has([1].map(v, nosuch(v)))", "coalesce(nosuch(1), 2)",
+                "coalesce(zz, m1.q, x(1), 3)", "has((1 / 0).size())", "has([1][3].b)", "coalesce((1 / 0).b, 2)",
+                "[1, 2].map(v, has(nosuch(v)))"]:
         add(src, [("i1", vi(5)), ("i0", vi(0)), ("m1", vmap([("a", vi(1))])), ("x", vi(1)), ("y", vi(2))], "ERRANY")
     for src, w in [("has(1)", "OK b1"), ("has(null)", "OK b1"), ("has(false)", "OK b1"), ("has(m1.a)", "OK b1"),
                    ("has(m1.b)", "OK b0"), ("has(m1['b'])", "OK b0"), ("has(zz)", "OK b0"), ("has(m1) && has(m1.a)", "OK b1")]:
@@ -86,6 +89,11 @@ def run(chk):
             cases.append(evalsrc_case("coalesce(%s)" % ", ".join(args), binds=[("m1", vmap([("a", vi(1))]))]))
             want.append((res, " ".join("%s n %s" % (hx(f), vlist(a)) for f, a in log)))
             labels.append("coalesce(%s)" % ", ".join(args))
+    # recorded finding: an absent field whose name is also a built-in function yields an internal error
+    kf = [("absent-field-named-like-builtin", evalsrc_case("has(m1.size)", binds=[("m1", vmap([("a", vi(1))]))]), "OK b0")]
+    for (key, c, w), r in zip(kf, run_impl([c for _, c, _ in kf], isolate=True)):
+        if not r.startswith(w):
+            chk.violation("recorded deviation", dict(case=c, impl=r, expected=w), key=key)
     impl, model = tie(chk, "has/coalesce", cases, labels=labels)
     for lab, c, r, w in zip(labels, cases, impl, want):
         k, payload, log = split_result(r)
